@@ -63,10 +63,10 @@ async def setup_users(root, encrypted):
     users = [User('owner', b'owner', res.key, 'A')]
     if encrypted:
         with lib.quiet():
-            k1 = await r.add_key(password=b'shared', shared=True, settings={'encryption': {'kdf': dict(FAST)}})
-            k2 = await r.add_key(password=b'indep', shared=False, settings={'encryption': {'kdf': dict(FAST)}})
-        users.append(User('shared', b'shared', k1.new_key, 'A'))
-        users.append(User('indep', b'indep', k2.new_key, 'B'))
+            k1 = await r.add_key(password=b'shared\n', shared=True, settings={'encryption': {'kdf': dict(FAST)}})
+            k2 = await r.add_key(password=b' indep pw\r\n', shared=False, settings={'encryption': {'kdf': dict(FAST)}})
+        users.append(User('shared', b'shared\n', k1.new_key, 'A'))
+        users.append(User('indep', b' indep pw\r\n', k2.new_key, 'B'))
     await r.close()
     return users
 
@@ -125,9 +125,14 @@ async def history(root, rnd, encrypted, prop, n_ops, long_lived=False):
             op = 'snapshot'
         if op == 'resnap' and not own:
             op = 'snapshot'
-        if op in ('snapshot', 'resnap'):
-            if op == 'resnap':
-                files = dict(model[rnd.choice(own)][1])
+        family_mates = [n for n, (u, _) in model.items() if u.name != user.name and u.family == user.family]
+        if prop == 'C07' and family_mates and rnd.random() < 0.35:
+            op = 'resnap_family'          # the same data as a snapshot of ANOTHER user of the same key family
+        if op in ('snapshot', 'resnap', 'resnap_family'):
+            if op == 'resnap_family':
+                files = {os.path.basename(k): v for k, v in model[rnd.choice(family_mates)][1].items()}
+            elif op == 'resnap':
+                files = {os.path.basename(k): v for k, v in model[rnd.choice(own)][1].items()}
             else:
                 files = {}
                 for j in range(rnd.randint(1, 4)):
@@ -145,9 +150,9 @@ async def history(root, rnd, encrypted, prop, n_ops, long_lived=False):
                 snap = await r.snapshot(paths=[src])
             await r.close()
             model[snap.name] = (user, {str((src / k).resolve()): v for k, v in files.items()})
-            if prop == 'C07' and op == 'resnap':
+            if prop == 'C07' and op in ('resnap', 'resnap_family'):
                 if rec.uploads:
-                    problems.append({'step': step, 'problem': 'a snapshot of unchanged data transferred chunk payloads', 'uploads': len(rec.uploads)})
+                    problems.append({'step': step, 'problem': 'a snapshot of data that the family already stores transferred chunk payloads', 'uploads': len(rec.uploads), 'kind': op, 'user': user.name})
             if prop == 'C07':
                 dup = [n for n in rec.uploads if n in before]
                 if dup:
@@ -281,15 +286,65 @@ def wrong_password_cases(root):
                 await r.close()
                 if ok != (u.name == other.name):
                     probs.append({'problem': 'unlock with a wrong password / foreign key', 'key_of': u.name, 'password_of': other.name, 'unlocked': ok})
+            # near misses: the password is a byte string, every byte counts (line terminators, blanks, a missing last byte)
+            for variant in {u.password.rstrip(), u.password.strip(), u.password + b'\n', u.password[:-1], u.password.lower() + b' '} - {u.password}:
+                r = Repository(Local(root / 'repo'), concurrent=1, quiet=True, cache_directory=None)
+                try:
+                    with lib.quiet():
+                        await r.unlock(password=variant, key=r.serialize(u.key))
+                    probs.append({'problem': 'a password that differs from the key\'s password unlocked it', 'key_of': u.name, 'tried': repr(variant), 'real': repr(u.password)})
+                except exceptions.ReplicatError:
+                    pass
+                await r.close()
         return probs
     return asyncio.run(go())
+
+
+async def many_orphans(root, encrypted, n_chunks):
+    global CACHE_MODE
+    CACHE_MODE = 'none'
+    users = await setup_users(root, encrypted)
+    owner, other = users[0], users[-1]
+    src = root / 'src'
+    src.mkdir()
+    problems = []
+    # the other user's (or, unencrypted, an older) snapshot that must survive untouched
+    (src / 'keep').write_bytes(lib.content(5, 600))
+    r = await _plain_open(root, other, cache=False)
+    with lib.quiet():
+        await r.snapshot(paths=[src / 'keep'])
+    await r.close()
+    kept = set(Local(root / 'repo').list_files('data/'))
+    (src / 'big').write_bytes(lib.content(77, n_chunks * 40))
+    r = await _plain_open(root, owner, cache=False)
+    with lib.quiet():
+        snap = await r.snapshot(paths=[src / 'big'])
+    await r.close()
+    # "interrupted before the snapshot object was uploaded": remove the snapshot object behind replicat's back
+    be = Local(root / 'repo')
+    mine = [p for p in be.list_files('snapshots/') if p.endswith(snap.name)]
+    for p in mine:
+        be.delete(p)
+    orphans = set(be.list_files('data/')) - kept
+    if len(orphans) < n_chunks * 0.6:
+        problems.append({'problem': 'harness: too few orphans produced', 'orphans': len(orphans)})
+    r = await _plain_open(root, owner, cache=False)
+    with lib.quiet():
+        await r.clean()
+    await r.close()
+    left = set(be.list_files('data/'))
+    if left - kept:
+        problems.append({'problem': 'clean left unreferenced chunks of the caller behind', 'left': len(left - kept), 'orphans_before': len(orphans)})
+    if kept - left:
+        problems.append({'problem': 'clean removed chunks that a remaining snapshot references', 'lost': len(kept - left)})
+    return problems
 
 
 def main():
     payload = lib.read_payload()
     tier, seed, prop = payload.get('tier', 'quick'), int(payload.get('seed', 0)), payload.get('prop', 'C02')
     failures, samples, cases = [], [], 0
-    n_hist = 40 if tier == 'thorough' else 2
+    n_hist = 40 if tier == 'thorough' else 5
     for encrypted in (True, False):
         for h in range(n_hist):
             rnd = random.Random(seed * 1000 + h + (500 if encrypted else 0))
@@ -308,6 +363,19 @@ def main():
                     failures.append({'id': f'hist_{int(encrypted)}_{h}', 'class': None, 'case': case, 'detail': probs[:3]})
                 if len(samples) < 3:
                     samples.append(case)
+    if prop == 'C08':
+        # completeness at scale: a snapshot interrupted just before its snapshot object was written leaves MANY orphans (more than
+        # any plausible batch / page / pool size); one clean must remove all of them and nothing of the other users
+        for encrypted in (True, False):
+            with lib.scratch('vf_hist_') as root:
+                cases += 1
+                try:
+                    probs = asyncio.run(many_orphans(root, encrypted, 1200 if tier == 'thorough' else 700))
+                except Exception as e:
+                    import traceback
+                    probs = [{'problem': 'exception', 'error': f'{type(e).__name__}: {e}'[:300], 'tb': traceback.format_exc()[-600:]}]
+                if probs:
+                    failures.append({'id': f'orphans_{int(encrypted)}', 'class': None, 'case': {'encrypted': encrypted, 'orphans': '>= 700'}, 'detail': probs[:3]})
     if prop == 'C06':
         with lib.scratch('vf_hist_') as root:
             cases += 9
